@@ -5,6 +5,7 @@ import WK.Proofs.C07_Ref5
 import WK.Proofs.C07_Ref7
 import WK.Proofs.C07_Ref8
 import WK.Proofs.C07_Ref9
+import WK.Proofs.C07_Ref10
 /-
   C07 — theorems about the executable store model (`WK.C07.step`, the function the
   driver runs against the real store).
@@ -638,5 +639,16 @@ theorem c07_refines_run_partial2 (ops : List Op) (st : Store) (hi : Inv st) (hk 
 
 example : Covered2 (.fetch 0 1 none []) ∧ Covered2 (.trunc 0 1) ∧ Covered2 (.idem 0 [1] [2]) ∧ ¬ Covered2 (.trim 0 1 0 0) :=
   ⟨trivial, trivial, trivial, fun h => h⟩
+
+/-- **c07_refines_trim_partial**: `TrimPrefixThrough(Limit)` (bounded or not, also beyond LEO) refines the reference log's
+    prefix trim — same deleted rows, same retention triple, same log end, same result — given that the stored retention
+    state satisfies `physical ≤ logical` (`PhysLeLoc`, what `validateRetentionState` enforces before every write; this
+    is the missing hypothesis: it is not yet part of `Inv`). -/
+theorem c07_refines_trim_partial (st : Store) (c t mm mb : Nat) (hi : Inv st) (hk : Chk st) (hcn : c < numChan)
+    (hpl : PhysLeLoc (st.chan c)) : Refines st (.trim c t mm mb) := refines_trim st c t mm mb hi hk hcn hpl
+
+example : Refines Store.init (.trim 1 3 2 0) :=
+  c07_refines_trim_partial _ _ _ _ _ inv_init (by intro c r hr; rw [init_chan] at hr; cases hr) (by decide)
+    (by rw [init_chan]; exact Nat.le_refl _)
 
 end WK.C07
